@@ -18,7 +18,8 @@ RULE = ("every ordered forest with <= N entries (N=5 quick, 6 thorough; depth <=
         "0x801 bytes stored as file objects) x key alphabet; a Free entry at every position; competing key tables with "
         "sequence pairs {0,1,2,65535}^2; header sequence pairs likewise with a poisoned inactive header; object tables "
         "chained 1-5 deep, fanned out or tail-linked; further flag bits {0x02,0x04,0x80,0xFE} on every value; strings whose "
-        "surrogate pairs straddle the 4 KiB / 8 KiB / 64 KiB marks of their file object. Oracle: as_dict() equals the model tree including Python types; item access equals as_dict. non-trivial = "
+        "surrogate pairs straddle the 4 KiB / 8 KiB / 64 KiB marks of their file object or that begin with U+FEFF / U+FFFE; key "
+        "tables larger than 64 KiB (entries at 0x1000a..); unallocated slots between the object-table entries. Oracle: as_dict() equals the model tree including Python types; item access equals as_dict. non-trivial = "
         "more than one key table, a Free entry, a file object, a competing table or a non-default header pair")
 ASSUMPTIONS = [
     "layout as documented in hyperv.py and transcribed in mc/builders/hyperv.py; the independent decoder in that module decodes "
@@ -39,7 +40,9 @@ VALUES = {
     # strings whose surrogate pairs straddle the 4 KiB / 8 KiB / 64 KiB marks of the file object that holds them
     B.T_STR: ["", "a", "héllo \U0001F98A", "x" * 0x3FF, "y" * 0x400, "z" * 0x401, "\U0001F98A" * 0x200,
               "p" * 2047 + "\U0001F600" + "q" * 9, "p" * 4095 + "\U0001F600" + "q" * 9, "\U0001F600" + "p" * 4094 + "\U0001F600",
-              "r" * 8191 + "\U0001F98A" * 3, "s" * 32767 + "\U0001F600", "\u00e9" * 4096, "t" * 4097],
+              "r" * 8191 + "\U0001F98A" * 3, "s" * 32767 + "\U0001F600", "\u00e9" * 4096, "t" * 4097,
+              # the stored strings are UTF-16-LE without a byte order mark: a leading U+FEFF / U+FFFE is part of the value
+              "\ufeffinline", "\ufffeinline", "\ufeff" + "n" * 0x500, "\ufffe" + "m" * 0x500, "k" * 0x500 + "\ufeff"],
     B.T_ARR: [b"", b"\x00", bytes(range(256)), b"\xAA" * 0x7FF, b"\xBB" * 0x800, b"\xCC" * 0x801,
               bytes(range(256)) * 32, bytes(range(255)) * 33 + b"\x01", bytes(range(251)) * 270],
 }
@@ -92,7 +95,7 @@ def shards(tier):
         k = {1: 1, 2: 1, 3: 2, 4: 8, 5: 16, 6: 64}[n]
         for i in range(k):
             out.append({"kind": "tree", "n": n, "slice": [i, k], "thin": tier == "quick" and n == 5})
-    out += [{"kind": "value"}, {"kind": "flags"}, {"kind": "free"}, {"kind": "competing"}, {"kind": "headers"}, {"kind": "chain"}, {"kind": "high"}]
+    out += [{"kind": "value"}, {"kind": "flags"}, {"kind": "bigtable"}, {"kind": "holes"}, {"kind": "free"}, {"kind": "competing"}, {"kind": "headers"}, {"kind": "chain"}, {"kind": "high"}]
     return out
 
 
@@ -120,6 +123,21 @@ def run_shard(shard, ctx):
                     if t in (B.T_STR, B.T_ARR) and len(B.enc_value(t, vals[vi])) > 0x3000 and fl != 0x02:
                         continue
                     run_case({"kind": "value", "type": t, "vi": vi, "key": (vi + t) % len(KEYS), "flags": fl}, ctx)
+    elif kind == "bigtable":
+        # key tables larger than 64 KiB: a large Free entry pushes the following entries to offsets 0x1000a.. -- the same low 16
+        # bits as the entries at the start of this and of the other tables
+        for fi in range(0, len(forests(5)), 2):
+            for nt in (1, 2, 3):
+                for pos in (1, 2, 3):
+                    for order in ("fwd", "rev"):
+                        run_case({"kind": "bigtable", "forest": fi, "ntables": nt, "pos": pos, "order": order}, ctx)
+    elif kind == "holes":
+        # unallocated slots in front of and between the allocated object-table entries
+        for fi in range(0, len(forests(4)), 2):
+            for nt in (1, 2, 3):
+                for holes in (1, 2, 3):
+                    for depth in (0, 1, 2):
+                        run_case({"kind": "holes", "forest": fi, "ntables": nt, "holes": holes, "depth": depth}, ctx)
     elif kind == "free":
         shape = forests(5)[17]
         for pos in range(0, 6):
@@ -200,6 +218,19 @@ def run_case(case, ctx):
             kw = dict(extra_flags=case["flags"])
             nontrivial = True
         ctx.outcome("value")
+    elif kind == "bigtable":
+        tree = tree_from_shape(forests(5)[case["forest"]], case["forest"])
+        kw = dict(ntables=case["ntables"], table_order=case["order"], free_at={case["pos"]}, free_size="alias")
+        nontrivial = True
+        ctx.outcome("free")
+    elif kind == "holes":
+        tree = tree_from_shape(forests(4)[case["forest"]], 2)
+        tree["configuration"][1]["bigleaf"] = (B.T_ARR, b"\x22" * 0x900)
+        kw = dict(ntables=case["ntables"], holes=case["holes"])
+        if case["depth"]:
+            kw.update(object_table_chain=case["depth"], chain_shape="chain", extra_replay_log=True)
+        nontrivial = True
+        ctx.outcome("object-table-chain")
     elif kind == "free":
         tree = tree_from_shape(forests(5)[17], 1)
         kw = dict(ntables=case["ntables"], table_order=case["order"], free_at=set(case["pos"]))
